@@ -17,7 +17,7 @@ HANDOVER = V.universe(
 def run(ctx):
     ctx.build_harness()
     ctx.assumptions += ["pool guarantees towards Votor (C06): safe-to-notar/skip only after the own vote",
-                        "set_timeouts (timer arming) is modelled but not observed in the Votor replay"]
+                        "timer arming (set_timeouts) is compared per step; the firing times themselves are exercised by C02"]
     if ctx.tier == "quick":
         V.run_model(ctx, "w0", W0, 7, 7, sample=80000,
                     witnesses=["W_Final", "W_Nf", "W_Sf"])
